@@ -73,7 +73,7 @@ func verifGetToken(input string, val *ValType, pos *int) int {
 	}
 	if *pos >= len(input) {
 		*pos++
-		return -1
+		return @EOFCODE@
 	}
 	c := input[*pos]
 	p := *pos
